@@ -21,6 +21,7 @@ ENGINES = [
     {"name": "timers", "path": "harness/eng_timers.go", "serves_properties": ["C40"], "kind_free_text": "drives real timers.EpochTimers with counting handlers against Model/Timers.lean"},
     {"name": "gov", "path": "harness/eng_gov.go", "serves_properties": ["C36"], "kind_free_text": "enumerates current/main-network/inner-ring key lists through the real newAlphabetList/updateInnerRing against Model/Governance.lean"},
     {"name": "meta", "path": "harness/eng_meta.go", "serves_properties": ["C01", "C02", "C06", "C07"], "kind_free_text": "history driver of the real metabase (meta.DB on a temp bolt file, settable epoch) against Model/Meta.lean + Spec/MetaRef.lean"},
+    {"name": "dump", "path": "harness/eng_dump.go", "serves_properties": ["C46"], "kind_free_text": "dumps real shards and restores them through chunking readers against Model/Dump.lean"},
     {"name": "ec", "path": "harness/eng_ec.go", "serves_properties": ["C21", "C22"], "kind_free_text": "differential driver of internal/ec against Model/EC.lean"},
 ]
 
@@ -210,3 +211,17 @@ prop("C07",
           "(removeGarbage deletes what GetGarbage lists; collectExpiredObjects consumes IterateExpired) is covered only through these two "
           "metabase views here; forced marks (MarkGarbage) deliberately override locks as the property allows.",
      rule=META_RULE)
+
+prop("C46",
+     theorems=["NeoFS.Dump.readFull_exact", "NeoFS.Dump.restoreLoop_records", "NeoFS.Dump.restore_dump_exact",
+               "NeoFS.Dump.restore_dump_all", "NeoFS.Dump.single_read_loses_data"],
+     engines=[dict(name="dump", quick=1, thorough=1)],
+     claim="Lean proves for every list of objects (< 2^32 bytes each) and EVERY chunking of the byte stream by the reader: Restore(Dump(objs)) yields "
+           "exactly the valid objects in order with identical bytes and counts the corrupted ones it skips; io.ReadFull is proved to return exactly "
+           "the next n bytes under any chunking. The repaired defect (single Read) is kept as a decide-checked counterexample. Tied to the real "
+           "Shard.Dump/Restore by dumping real shards (with/without write-cache) and restoring through plain, one-byte, half and random-chunk readers "
+           "with a corrupted record, with and without ignore-errors.",
+     note="Trusted: Lean kernel; Model/Dump.lean (object decoding = a validity predicate; Shard.Put of a decoded object assumed to store it - observed "
+          "by Get on the restored shard in the run).",
+     rule="60 (quick) / 3000 (thorough) seeded dumps of 0..6 objects (payload 0..5004 bytes) x reader kind (plain, 1-byte, 2-4 byte, random chunks up "
+          "to 9000) x optional corrupted record x ignore-errors; non-trivial = at least two objects through a chunking reader; distinct by op")
